@@ -74,6 +74,7 @@ def run(rep, tier, seed, selftest, st):
     before = len(rep.violations)
     agree = 0
     counts = {"A": 0, "R": 0, "U": 0}
+    real_rep, rep = rep, mu.Pending(rep)
     for case, obs in zip(cases, observations):
         counts[case["v"]] += 1
         for problem, msg in compare(case, obs):
@@ -82,9 +83,11 @@ def run(rep, tier, seed, selftest, st):
                            "how": "bin/check C11 --replay <this file>"})
         d = drift(case, obs)
         if d:
-            rep.note_drift("positions %s: %s" % (canon(case), "; ".join(d)))
+            real_rep.note_drift("positions %s: %s" % (canon(case), "; ".join(d)))
         else:
             agree += 1
+    rep.flush()
+    rep = real_rep
     log("[replay] positions: %d cells compiled by the real compiler (%d must-accept, %d must-reject, %d unconstrained), "
         "%d violations, agreement with the transcribed table %d/%d" %
         (len(cases), counts["A"], counts["R"], counts["U"], len(rep.violations) - before, agree, len(cases)))
